@@ -491,7 +491,9 @@ func (fs *fileStore) flush(out *os.File, fields core.Fields, filter goexpr.Expr,
 			}
 		}()
 
-		_, err = fs.iterate(fields, ms, !shouldSort, !disallowRaw, write)
+		// raw pass-through hands the writer only the undecoded row, which a
+		// sorted flush cannot use (it has to re-encode every row)
+		_, err = fs.iterate(fields, ms, !shouldSort, !disallowRaw && !shouldSort, write)
 		return
 	}
 
